@@ -22,6 +22,14 @@ Second sweep ("shared object"): ONE object per method discretises a chain of gri
 connectivity (StructuredTriangleGrid [2,3] then [3,2], tetrahedra [2,1,1] / [1,2,1] / [1,1,2], ...), each with fresh data
 dictionaries -- the way porepy uses one object for all subdomains of a mixed-dimensional grid; E1-E3 are evaluated on every grid.
 
+Third sweep ("is_tangential"): the documented option data['is_tangential'] = True on every 1-D / 2-D grid of the first sweep (in
+place and embedded): the tensor is given in the tangential frame (leading dim x dim block = lower-dimensional permeability K_t,
+isotropic / diagonal / full; normal and coupling entries different, they must not enter); E1 becomes -(B K_t B^T a).n_f with B the
+orthonormal tangent basis of map_grid (checked to span the tangent space; immaterial for isotropic K_t), E2/E3 unchanged.
+Fourth sweep ("tensor re-used"): the arguments' history.  ONE SecondOrderTensor object in ONE data dictionary is used by a sequence
+of methods (MVEM->RT0, RT0->MVEM, ...), four discretize/solve calls each (only bc_values replaced); E1-E3 with the tensor the user
+specified must hold after every call, i.e. discretize must not consume / alter its argument objects.
+
 Detection power (scratch copy, one mutant at a time, POREPY_SRC=<copy>): see MUTANTS below.
 """
 from __future__ import annotations
@@ -32,11 +40,17 @@ META = {
     "technique": "run-time contract sweep (bounded stand-in for deduction): postconditions of RT0 / MVEM discretize + assemble_matrix_rhs + solve "
                  "+ extract_flux/extract_pressure on enumerated simplex grids (1-D/2-D/3-D, perturbed, embedded) x SPD tensors, all-Dirichlet "
                  "data of the affine basis (= all linear pressures by linearity); mass matrix symmetric positive definite; evaluated with a "
-                 "fresh discretisation object per grid and with one object applied to chains of same-size grids of different connectivity",
+                 "fresh discretisation object per grid and with one object applied to chains of same-size grids of different connectivity; "
+                 "the documented option is_tangential (tensor given in the tangential frame of 1-D / 2-D grids); one SecondOrderTensor "
+                 "object / data dictionary re-used by successive discretize calls of MVEM and RT0",
     "text": "Bounded assurance only on the enumerated family. Deduction not applicable (local mass matrices + sparse saddle-point solve). "
             "Covers object re-use: one RT0 / MVEM object discretising several 2-D / 3-D simplex grids of equal size in turn (fresh data "
-            "dictionaries) must be exact on each of them. Not covered: unstructured (gmsh) simplex grids, Neumann/Robin data, heterogeneous "
-            "K, vector sources, project_flux, re-use of one data dictionary for several grids, object re-use across 1-D grids.",
+            "dictionaries) must be exact on each of them. Covers the option data['is_tangential'] = True (tangential-frame tensors "
+            "with different normal entries on in-place and embedded 1-D / 2-D grids) and argument re-use: one SecondOrderTensor object "
+            "and data dictionary serving several discretize calls (MVEM and RT0 in turn, new boundary values) must give exact results "
+            "with the specified tensor on every call. Not covered: unstructured (gmsh) simplex grids, Neumann/Robin data, heterogeneous "
+            "K, vector sources, project_flux, re-use of one data dictionary for several grids, object re-use across 1-D grids, "
+            "is_tangential combined with argument re-use, the option deviation_from_plane_tol.",
     "note": "oracle = -(K a).n_f and p(cell centre) from geometry arrays (C19); tolerance 1e-9 relative to kmax*area*|a| resp. max|p|",
 }
 
@@ -50,6 +64,11 @@ MUTANTS = """
   M6 rt0.py _compute_cell_face_to_opposite_node: the cell->opposite-node map memoised on the RT0 instance and re-used whenever its
        shape (num_cells, dim+1) matches (cache key ignores connectivity)                                  caught by "RT0: exact face fluxes" /
        "exact cell-centre pressures" in the shared-object sweep only (2-D and 3-D chains, from the second grid on; results are NaN)
+  M7 rt0.py / mvem.py discretize: flag ``is_tangential`` looked up in the parameter dictionary instead of the data dictionary
+       (option silently ignored, tangential tensor rotated once more)                                   caught by "exact face fluxes ... (is_tangential)"
+       of both methods, embedded 1-D / 2-D grids (third sweep only)
+  M8 mvem.py discretize: ``k = k.copy()`` dropped, ``k.rotate(R)`` acts on the caller's tensor           caught by "exact face fluxes ... (tensor re-used)"
+       (fourth sweep only: MVEM from its second call on, RT0 after MVEM; 1-D and embedded 2-D grids)
 """
 
 import warnings
@@ -67,6 +86,10 @@ C_FLUX = "exact face fluxes for a linear pressure with Dirichlet data"
 C_PRES = "exact cell-centre pressures for a linear pressure with Dirichlet data"
 C_SPD = "mass matrix symmetric positive definite"
 C_RUN = "discretize/assemble/solve terminates without exception on an admissible input"
+# clause suffixes of the two added families (the clause itself is unchanged; the suffix names the configuration / call history)
+# (kept short: obligation + signature name the replay file, which is cut at 120 characters)
+S_TAN = " (is_tangential)"    # permeability given in the tangential frame, documented option data['is_tangential'] = True
+S_REUSE = " (tensor re-used)"  # the same SecondOrderTensor object and data dictionary used by successive discretize calls
 
 
 # ----------------------------------------------------------------------------- grids
@@ -200,6 +223,32 @@ def tensor_family(dim):
     return [("iso", np.diag([2.5, 2.5, 2.5])), ("diag", np.diag([1.0, 10.0, 0.1])), ("full", Q @ np.diag([4.0, 1.0, 0.25]) @ Q.T)]
 
 
+def tangential_tensor_family(dim, quick):
+    """SPD 3x3 tensors in the tangential frame of a 1-D / 2-D grid (option is_tangential): the leading dim x dim block is the
+    lower-dimensional permeability, the remaining (normal, tangential-normal) entries are deliberately different and must not
+    enter the result.  'tan-iso*' have an isotropic tangential block, for which the expected flux -k_t a.n_f does not depend on
+    which orthonormal tangent basis the library uses."""
+    if dim == 1:
+        fam = [("tan-iso kt=2.5 kn=40", np.diag([2.5, 40.0, 40.0])), ("tan-iso kt=0.1 kn=7", np.diag([0.1, 7.0, 3.0]))]
+        if not quick:
+            fam += [("tan kt=2.5 coupled", np.array([[2.5, 0.8, -0.5], [0.8, 40.0, 1.0], [-0.5, 1.0, 30.0]])),
+                    ("tan-iso kt=3e9 kn=1", np.diag([3.0e9, 1.0, 1.0]))]
+        return fam
+    c, s = np.cos(0.6), np.sin(0.6)
+    Q = np.array([[c, -s], [s, c]])
+    full = np.zeros((3, 3))
+    full[:2, :2] = Q @ np.diag([5.0, 0.5]) @ Q.T
+    full[2, 2] = 20.0
+    coupled = full.copy()
+    coupled[0, 2] = coupled[2, 0] = 0.3
+    coupled[1, 2] = coupled[2, 1] = -0.2
+    fam = [("tan-iso kt=2.5 kn=40", np.diag([2.5, 2.5, 40.0])), ("tan-full coupled", coupled)]
+    if not quick:
+        fam += [("tan-diag", np.diag([1.0, 10.0, 0.05])), ("tan-full", full), ("tan-full-1e-9", 1e-9 * full),
+                ("tan-iso kt=0.1 kn=7", np.diag([0.1, 0.1, 7.0]))]
+    return fam
+
+
 def make_tensor(pp, K3, nc):
     o = np.ones(nc)
     return pp.SecondOrderTensor(K3[0, 0] * o, kyy=K3[1, 1] * o, kzz=K3[2, 2] * o, kxy=K3[0, 1] * o, kxz=K3[0, 2] * o, kyz=K3[1, 2] * o)
@@ -212,30 +261,91 @@ def new_discretization(pp, method):
     return {"RT0": pp.RT0, "MVEM": pp.MVEM}[method](KW)
 
 
-def evaluate(pp, method, spec, K, discr=None):
+def tangent_frame(pp, g):
+    """Orthonormal basis B (3 x dim) of the tangent space of a 1-D / 2-D grid in which a 'tangential' tensor is expressed: the
+    local coordinates of pp.map_geometry.map_grid, y = (R x)[active].  Which orthonormal tangent basis is used is a convention of
+    the library (it is the frame 'the fracture plane' of the docstrings refers to); that B IS an orthonormal basis of the tangent
+    space is checked here independently (projector from an SVD of the centred nodes).  Returns None if that check fails."""
+    with warnings.catch_warnings():
+        warnings.simplefilter("ignore")
+        _, _, _, Rm, active, _ = pp.map_geometry.map_grid(g)
+    B = np.asarray(Rm, dtype=float)[np.asarray(active, dtype=bool), :].T
+    v = g.nodes - g.nodes.mean(axis=1, keepdims=True)
+    U, sv, _ = np.linalg.svd(v)
+    if B.shape != (3, g.dim) or not sv[g.dim - 1] > 1e-8 or not np.all(sv[g.dim:] < 1e-9 * sv[0]):
+        return None
+    P = U[:, : g.dim] @ U[:, : g.dim].T
+    if not (np.abs(B.T @ B - np.eye(g.dim)).max() < 1e-10 and np.abs(B @ B.T - P).max() < 1e-9):
+        return None
+    return B
+
+
+def evaluate(pp, method, spec, K, discr=None, tangential=False, shared=None):
     """Evaluate E1-E3 for one (grid, tensor).  ``discr`` = the discretisation object to use; None = a freshly constructed one.
     Passing an object that has already discretised other grids is how the 'shared object' sweep exercises the statement for
-    every grid an object is applied to (the statement quantifies over the grid, not over the object's call history)."""
-    g = build_grid(pp, spec)
+    every grid an object is applied to (the statement quantifies over the grid, not over the object's call history).
+
+    ``tangential``: K is the tensor in the tangential frame of a 1-D / 2-D grid (leading dim x dim block = the lower-dimensional
+    permeability; the other entries must not enter) and the documented option data['is_tangential'] = True is set.
+    ``shared``: a dictionary owned by the caller; the grid, ONE SecondOrderTensor object and ONE data dictionary are created on
+    the first use and re-used by every later discretize call made through the same ``shared`` (only bc_values is replaced)."""
+    if shared is not None and "g" in shared:
+        g = shared["g"]
+    else:
+        g = build_grid(pp, spec)
     nf, nc = g.num_faces, g.num_cells
     K = np.asarray(K, dtype=float)
-    R = np.eye(3) if spec.get("R") is None else np.asarray(spec["R"], dtype=float)
-    K3 = R @ K @ R.T  # the tensor in the coordinates the (possibly embedded) grid lives in
-    K3 = 0.5 * (K3 + K3.T)
+    suffix = (S_TAN if tangential else "") + (S_REUSE if shared is not None else "")
+    if tangential:
+        B = tangent_frame(pp, g)
+        if B is None:
+            return [(_ob(method, C_RUN + suffix), "map_grid did not return an orthonormal basis of the tangent space of the grid")]
+        Kpass = K  # handed over as it is: already in the tangential frame
+        Kt = 0.5 * (K[: g.dim, : g.dim] + K[: g.dim, : g.dim].T)
+        K3 = B @ Kt @ B.T  # the tensor that must act on the (ambient) pressure gradient
+        kmax = np.abs(Kt).max()
+    else:
+        R = np.eye(3) if spec.get("R") is None else np.asarray(spec["R"], dtype=float)
+        K3 = R @ K @ R.T  # the tensor in the coordinates the (possibly embedded) grid lives in
+        K3 = 0.5 * (K3 + K3.T)
+        Kpass = K3
+        kmax = np.abs(K).max()
     bf = g.get_all_boundary_faces()
     bc = pp.BoundaryCondition(g, bf, ["dir"] * bf.size)
     if discr is None:
         discr = new_discretization(pp, method)
+    if shared is not None and "tensor" not in shared:
+        shared["g"] = g
+        shared["tensor"] = make_tensor(pp, Kpass, nc)
+        shared["values0"] = shared["tensor"].values.copy()
+        shared["data"] = None
+        shared["calls"] = []
     xc, xf, nrm = g.cell_centers, g.face_centers, g.face_normals
     L = max(1.0, np.abs(g.nodes).max())
-    kmax = np.abs(K).max()
     bad = []
     mass_checked = False
     for a0, a in [(1.0, np.zeros(3))] + [(0.0, np.eye(3)[i]) for i in range(3)]:
         p = lambda x: a0 + a @ x  # noqa: E731
         bcv = np.zeros(nf)
         bcv[bf] = p(xf[:, bf])
-        data = pp.initialize_data({}, KW, {"bc": bc, "bc_values": bcv, "second_order_tensor": make_tensor(pp, K3, nc)})
+        if shared is None:
+            data = pp.initialize_data({}, KW, {"bc": bc, "bc_values": bcv, "second_order_tensor": make_tensor(pp, Kpass, nc)})
+        else:
+            if shared["data"] is None:
+                shared["data"] = pp.initialize_data({}, KW, {"bc": bc, "bc_values": bcv, "second_order_tensor": shared["tensor"]})
+                shared["data"][pp.PARAMETERS][KW]["second_order_tensor"] = shared["tensor"]  # the very same object
+            data = shared["data"]
+            data[pp.PARAMETERS][KW]["bc_values"] = bcv
+        if tangential:
+            data["is_tangential"] = True  # 'stored in the data dictionary' (docstrings of RT0.discretize / MVEM.discretize)
+        hist = ""
+        if shared is not None:
+            vals = shared["tensor"].values
+            same = vals.shape == shared["values0"].shape and np.array_equal(vals, shared["values0"])
+            hist = (f" [discretize call #{len(shared['calls']) + 1} with this tensor object / data dictionary, earlier calls: "
+                    f"{_runs(shared['calls']) or 'none'}; tensor values before the call "
+                    + ("as specified" if same else "NOT as specified (changed by an earlier discretize)") + "]")
+            shared["calls"].append(method)
         try:
             with warnings.catch_warnings():
                 warnings.simplefilter("ignore")
@@ -245,30 +355,52 @@ def evaluate(pp, method, spec, K, discr=None):
                 q = discr.extract_flux(g, x, data)
                 pc = discr.extract_pressure(g, x, data)
         except Exception as e:
-            return bad + [(_ob(method, C_RUN), f"{type(e).__name__}: {e}")]
+            return bad + [(_ob(method, C_RUN + suffix), f"{type(e).__name__}: {e}" + hist)]
         if not mass_checked:
             mass_checked = True
             Mm = data[pp.DISCRETIZATION_MATRICES][KW][discr.mass_matrix_key].toarray()
             asym = np.abs(Mm - Mm.T).max()
             if Mm.shape != (nf, nf) or not asym <= 1e-13 * np.abs(Mm).max():  # 'not <=' so that NaN counts as a failure
-                bad.append((_ob(method, C_SPD), f"shape {Mm.shape}, max |M - M^T| = {asym:.3e} (max |M| {np.abs(Mm).max():.3e})"))
+                bad.append((_ob(method, C_SPD + suffix), f"shape {Mm.shape}, max |M - M^T| = {asym:.3e} (max |M| {np.abs(Mm).max():.3e})" + hist))
             else:
                 try:
                     np.linalg.cholesky(0.5 * (Mm + Mm.T))
                 except np.linalg.LinAlgError:
-                    bad.append((_ob(method, C_SPD), f"Cholesky failed; smallest eigenvalue {np.linalg.eigvalsh(0.5 * (Mm + Mm.T)).min():.3e}"))
+                    bad.append((_ob(method, C_SPD + suffix), f"Cholesky failed; smallest eigenvalue {np.linalg.eigvalsh(0.5 * (Mm + Mm.T)).min():.3e}" + hist))
         darcy = -(K3 @ a) @ nrm
         pmax = 1.0 if a0 else L
         tol = 1e-9 * max(kmax * g.face_areas.max(), 1e-300) * max(1.0, L)
         err = np.abs(q - darcy)
         if q.shape != (nf,) or not err.max() <= tol:  # NaN-safe
             f = int(err.argmax())
-            bad.append((_ob(method, C_FLUX), f"a0={a0} grad={a.tolist()}: face {f} flux {q[f]!r} expected {darcy[f]!r} (tol {tol:.1e})"))
+            bad.append((_ob(method, C_FLUX + suffix), f"a0={a0} grad={a.tolist()}: face {f} flux {q[f]!r} expected {darcy[f]!r} (tol {tol:.1e})" + hist))
         perr = np.abs(pc - p(xc))
         if pc.shape != (nc,) or not perr.max() <= 1e-9 * pmax:  # NaN-safe
             c = int(perr.argmax())
-            bad.append((_ob(method, C_PRES), f"a0={a0} grad={a.tolist()}: cell {c} pressure {pc[c]!r} expected {p(xc)[c]!r}"))
+            bad.append((_ob(method, C_PRES + suffix), f"a0={a0} grad={a.tolist()}: cell {c} pressure {pc[c]!r} expected {p(xc)[c]!r}" + hist))
     return bad
+
+
+def _runs(calls):
+    """['MVEM','MVEM','RT0'] -> 'MVEM x2, RT0 x1'"""
+    out = []
+    for m in calls:
+        if out and out[-1][0] == m:
+            out[-1][1] += 1
+        else:
+            out.append([m, 1])
+    return ", ".join(f"{m} x{k}" for m, k in out)
+
+
+def evaluate_sequence(pp, sequence, spec, K, upto=None):
+    """The re-use scenario: ONE SecondOrderTensor object in ONE data dictionary on one grid; the methods of ``sequence`` (fresh
+    discretisation objects) discretise / solve in turn, each for the four basis fields (new bc_values only).  Returns one list of
+    E1-E3 failures per method of the sequence (``upto``: stop after that many)."""
+    shared = {}
+    out = []
+    for m in sequence[: upto or len(sequence)]:
+        out.append(evaluate(pp, m, spec, K, shared=shared))
+    return out
 
 
 def _gname(spec):
@@ -284,11 +416,17 @@ def run(rep):
 
     rep.under_contract("pp.RT0.discretize", "pp.MVEM.discretize", "DualElliptic.assemble_matrix_rhs", "DualElliptic.extract_flux",
                        "DualElliptic.extract_pressure")
-    rep.trust("grid geometry arrays (face_normals, face_centers, cell_centers) -- property C19", "numpy.linalg.solve / cholesky")
+    rep.trust("grid geometry arrays (face_normals, face_centers, cell_centers) -- property C19", "numpy.linalg.solve / cholesky",
+              "pp.map_geometry.map_grid: choice of the orthonormal tangent basis for is_tangential tensors (orthonormality and span are "
+              "re-checked against an SVD of the nodes; the choice is immaterial for isotropic tangential blocks)")
     rep.assume("flux unknowns are normal fluxes integrated over the face, positive along the face normal; for embedded grids the tensor "
                "is given in the ambient coordinates (R K R^T), as in porepy's own tests",
                "discretize(sd, data) with a fresh data dictionary must not depend on which grids the same object discretised before "
-               "(the statement is for any grid; one object serves all subdomains in porepy's mixed-dimensional assembly)")
+               "(the statement is for any grid; one object serves all subdomains in porepy's mixed-dimensional assembly)",
+               "with data['is_tangential'] = True the leading dim x dim block of the tensor is the permeability in the local coordinates "
+               "of pp.map_geometry.map_grid (the 'fracture plane' frame of the docstrings); all other entries are irrelevant",
+               "the 'constant permeability' of the statement is the tensor the user specified: a SecondOrderTensor / data dictionary "
+               "passed to discretize may be passed again (re-discretisation after new boundary data, second method for comparison)")
     quick = rep.tier == "quick"
     rng = rep.rng
     with rep.sweep(
@@ -300,7 +438,8 @@ def run(rep):
         bound="1-D <= 5 cells, 2-D <= 4x3x2 triangles, 3-D <= 48 tetrahedra; perturbation <= 0.25 h; " + ("2" if quick else "4") + " rotations",
         exhaustive=False,
     ) as sw:
-        for spec in grid_specs(pp, rng, quick):
+        specs = grid_specs(pp, rng, quick)
+        for spec in specs:
             g = build_grid(pp, spec)
             if not cells_valid(g):
                 sw.skip()
@@ -344,17 +483,89 @@ def run(rep):
                                           inputs={"method": method, "grid": spec, "K": np.asarray(K).tolist(), "history": list(history)})
                         history.append(spec)
 
+    with rep.sweep(
+        "RT0 / MVEM linear exactness, permeability given in the tangential frame (option is_tangential)",
+        rule="methods {RT0, MVEM} x the 1-D and 2-D grids of the first sweep (regular / perturbed / affine; in place and rigidly rotated "
+             "into 3-D) x SPD tensors given in the tangential frame with data['is_tangential'] = True: leading dim x dim block = "
+             "lower-dimensional permeability {isotropic, diagonal, full}, normal and tangential-normal entries different from it "
+             "(they must not enter); expected flux -(B K_t B^T a).n_f with B the orthonormal tangent basis of map_grid (verified to "
+             "span the tangent space; irrelevant for isotropic K_t); E1-E3 as in the first sweep; distinct by (method, grid nodes, "
+             "tensor); non-trivial = 1-D, embedded or non-regular grid",
+        bound="grids of the first sweep with dim < 3; " + ("2" if quick else "4 (1-D) / 6 (2-D)") + " tangential tensors per dimension",
+        exhaustive=False,
+    ) as sw:
+        for spec in specs:
+            dim = _dim(spec)
+            if dim == 3:
+                continue
+            g = build_grid(pp, spec)
+            if not cells_valid(g) or tangent_frame(pp, g) is None:
+                sw.skip()
+                continue
+            emb = "embedded" in spec["variant"]
+            for tname, K in tangential_tensor_family(dim, quick):
+                for method in ("RT0", "MVEM"):
+                    sw.case((method, "tangential", _gname(spec), spec["variant"], hash(str(spec["nodes"])), tname),
+                            nontrivial=dim == 1 or spec["variant"] != "regular",
+                            sample={"method": method, "grid": {k: v for k, v in spec.items() if k not in ("nodes", "R")}, "K": tname,
+                                    "is_tangential": True})
+                    for ob, detail in evaluate(pp, method, spec, K, tangential=True):
+                        rep.violation(ob, f"{dim}d {'emb' if emb else 'flat'} {tname.split(' ')[0]}",
+                                      detail=f"{spec['variant']}, tensor {tname} given in the tangential frame with "
+                                             "data['is_tangential'] = True: " + detail, confirmed=True,
+                                      inputs={"method": method, "grid": spec, "K": np.asarray(K).tolist(), "tangential": True})
+
+    sequences = [("MVEM", "RT0"), ("RT0", "MVEM")] + ([] if quick else [("MVEM", "MVEM", "RT0"), ("RT0", "RT0", "MVEM", "RT0")])
+    with rep.sweep(
+        "RT0 / MVEM linear exactness, one SecondOrderTensor object / data dictionary re-used by successive discretisations",
+        rule="method sequences {MVEM->RT0, RT0->MVEM, ...} x grids of the first sweep (" + ("regular and 0.1-perturbed" if quick else "all")
+             + " variants; in place and embedded; 1-D/2-D/3-D) x K {isotropic, full}: the user builds ONE SecondOrderTensor and ONE data "
+             "dictionary; every method of the sequence (fresh object) discretises / assembles / solves four times (the affine basis; only "
+             "bc_values is replaced between calls), so the sequence covers MVEM after MVEM, RT0 after MVEM, RT0 after RT0 and MVEM "
+             "after RT0; E1-E3 with the tensor the user specified are evaluated after every call; distinct by (sequence, position, grid "
+             "nodes, tensor); non-trivial = every case (from the second call on the arguments have been used before)",
+        bound=("2" if quick else "4") + " sequences; grids as in the first sweep" + (" restricted to the variants regular / perturbed0.1" if quick else ""),
+        exhaustive=False,
+    ) as sw:
+        for spec in specs:
+            dim = _dim(spec)
+            if quick and spec["variant"].split("+")[0] not in ("regular", "perturbed0.1"):
+                continue
+            if not cells_valid(build_grid(pp, spec)):
+                sw.skip()
+                continue
+            tensors = [t for t in tensor_family(dim) if t[0] in (("iso",) if dim == 1 else ("full",) if quick and dim == 3 else ("iso", "full"))]
+            for tname, K in tensors:
+                for seq in sequences:
+                    results = evaluate_sequence(pp, seq, spec, K)
+                    for pos, (method, bad) in enumerate(zip(seq, results)):
+                        sw.case(("reuse", "->".join(seq), pos, _gname(spec), spec["variant"], hash(str(spec["nodes"])), tname),
+                                sample={"sequence": list(seq), "position": pos, "K": tname,
+                                        "grid": {k: v for k, v in spec.items() if k not in ("nodes", "R")}})
+                        prev = "after " + seq[pos - 1] if pos else "first"
+                        for ob, detail in bad:
+                            rep.violation(ob, f"{dim}d {'emb' if 'embedded' in spec['variant'] else 'flat'} {tname} {prev}",
+                                          detail=f"{spec['variant']}, ONE SecondOrderTensor object / data dictionary used by the sequence "
+                                                 f"{'->'.join(seq)} (4 calls each), method #{pos}: " + detail, confirmed=True,
+                                          inputs={"method": method, "grid": spec, "K": np.asarray(K).tolist(), "sequence": list(seq),
+                                                  "position": pos})
+
 
 def replay(data):
     import porepy as pp
 
     inp = data["inputs"]
+    if inp.get("sequence"):  # re-used tensor object / data dictionary: re-run the sequence up to the failing method
+        bad = evaluate_sequence(pp, inp["sequence"], inp["grid"], inp["K"], upto=inp["position"] + 1)[inp["position"]]
+        for b in bad:
+            print("replay:", b)
+        return bool(bad)
     discr = None
     if inp.get("history"):  # the same object first discretises the earlier grids of the chain
         discr = new_discretization(pp, inp["method"])
         for h in inp["history"]:
             evaluate(pp, inp["method"], h, inp["K"], discr=discr)
-    bad = evaluate(pp, inp["method"], inp["grid"], inp["K"], discr=discr)
+    bad = evaluate(pp, inp["method"], inp["grid"], inp["K"], discr=discr, tangential=bool(inp.get("tangential")))
     for b in bad:
         print("replay:", b)
     return bool(bad)
